@@ -51,6 +51,7 @@ type idp struct {
 	onDiscovery func() // run once, inside the next discovery request
 	mintFor     string // provider id (path prefix) the answer being minted belongs to
 	answers     int    // token-endpoint answers sent (every other one declares a charset)
+	lastHonest  string // the last honestly signed ID token handed to the service in this scenario
 
 	discoveryOutage int // the next n discovery requests are answered 503
 	discoveryHits   int
@@ -72,6 +73,7 @@ func (p *idp) reset() {
 	p.mu.Lock()
 	defer p.mu.Unlock()
 	p.codes = map[string]*codeRec{}
+	p.lastHonest = ""
 	p.rts = map[string]*rtRec{}
 	p.family = 0
 	p.tokN = 0
@@ -466,7 +468,11 @@ func (p *idp) mint(ans *AnsSpec, grant string, lg *login, old *rtRec) (map[strin
 	if ts.SignKey == "" && effective == "k3" {
 		ts.SignKey = "k3"
 	}
+	ts.Graft = p.lastHonest
 	idTok, sigOK := mintID(ts)
+	if sigOK && class == "good" && ans.Mode == "honest" {
+		p.lastHonest = idTok // (the caller holds p.mu)
+	}
 	switch {
 	case class == "goodK3":
 		sigOK = effective == "k3"
